@@ -32,6 +32,7 @@ fn run_prop(id: &str, tier: Tier) -> Option<Report> {
         "C07" => props::c07::run(tier),
         "C13" => props::c13::run(tier),
         "C11" => props::c11::run(tier),
+        "C09" => props::c09::run(tier),
         _ => return None,
     })
 }
@@ -64,6 +65,7 @@ fn replay_case(case: &Value) -> Option<(bool, String)> {
         "c07geom" | "c07enc" | "c07curve" | "c07special" => props::c07::replay(case),
         "c13cube" | "c13strat" | "c13stratcase" | "c13unit" => props::c13::replay(case),
         "c11dec" | "c11float" | "c11enc" => props::c11::replay(case),
+        "c09" => props::c09::replay(case),
         _ => return None,
     })
 }
